@@ -141,6 +141,7 @@ structure St where
   caches : List CacheSlot := []
   pm : Portmap.Registry := []
   pmAddr : Bytes := []
+  drain : Drain.St := Drain.init
   cfg : Option Config.Cfg := none
   cfgCpu : Nat := 1
   buckets : List (String × Bucket.TB) := []
@@ -297,6 +298,44 @@ def poolCmd : List String → String
     | none => "bad-op"
   | _ => "bad-op"
 
+/-- the updater proceeds as soon as it can: Lock returns when no reader is left, then store + Unlock -/
+def drainProgress (d : Drain.St) : Drain.St :=
+  if d.upd == .waiting && (Drain.actives d).isEmpty then
+    { d with policy := d.pendingPolicy, limiter := d.pendingPolicy, upd := .idle }
+  else d
+
+def drainCmd (st : St) : List String → St × String
+  | ["reset"] => ({ st with drain := Drain.init }, "ok")
+  | ["req", r] => match r.toNat? with
+    | some r =>
+      let d := st.drain
+      if d.upd == .idle then
+        ({ st with drain := { d with reqs := ⟨r, d.policy, .active, false, d.limiter⟩ :: d.reqs } }, s!"admitted {d.policy}")
+      else
+        ({ st with drain := { d with reqs := ⟨r, d.policy, .refused, false, d.limiter⟩ :: d.reqs } }, "refused")
+    | none => (st, "bad-op")
+  | ["upd", p] => match p.toNat? with
+    | some p =>
+      let d := st.drain
+      if d.upd == .idle then
+        ({ st with drain := drainProgress { d with upd := .waiting, pendingPolicy := p } }, "started")
+      else (st, "bad-op")
+    | none => (st, "bad-op")
+  | ["release", r] => match r.toNat? with
+    | some r =>
+      let d := st.drain
+      match d.reqs.find? (fun q => q.id == r && q.phase == .active) with
+      | some q =>
+        let d1 := { d with backendLog := (q.id, q.admitted, d.policy) :: d.backendLog,
+                           reqs := Drain.setPhase d.reqs r .done }
+        ({ st with drain := drainProgress d1 }, s!"backend admitted={q.admitted} inforce={d.policy}")
+      | none => (st, "bad-op")
+    | none => (st, "bad-op")
+  | ["state"] =>
+    let d := st.drain
+    (st, s!"upd={if d.upd == .idle then "idle" else "waiting"} policy={d.policy} active={(Drain.actives d).length}")
+  | _ => (st, "bad-op")
+
 def rlCmd (st : St) : List String → St × String
   | ["bucket", name, n, d, burst, now] =>
     match n.toNat?, d.toNat?, burst.toNat?, now.toNat? with
@@ -441,6 +480,7 @@ def step (st : St) (line : String) : St × String :=
   | "startup" :: args => (st, startupCmd args)
   | "tls" :: args => (st, tlsCmd args)
   | "pool" :: args => (st, poolCmd args)
+  | "drain" :: args => drainCmd st args
   | ["reset"] => ({}, "ok")
   | _ => (st, "bad-op")
 
